@@ -43,6 +43,9 @@ CHECKS = {
             plain("sizes", "TestSizes",
                   {"shards": 12, "timeout": 600},
                   {"shards": 16, "timeout": 3000}),
+            rapid("drawn", "TestDrawn",
+                  {"checks": 12, "shards": 12, "timeout": 600, "shrinktime": "60s"},
+                  {"checks": 96, "shards": 16, "timeout": 3000, "shrinktime": "120s"}),
         ],
     },
     "C19": {
